@@ -95,6 +95,33 @@ impl Code for Sent {
     }
 }
 
+/// zero-sized element: nothing to overwrite, but its Zeroize is still a call the array owes each element
+pub struct ZCnt;
+static ZCALLS: std::sync::atomic::AtomicUsize = std::sync::atomic::AtomicUsize::new(0);
+impl Zeroize for ZCnt {
+    fn zeroize(&mut self) {
+        ZCALLS.fetch_add(1, std::sync::atomic::Ordering::SeqCst);
+    }
+}
+fn zst_calls<N: ArrayLength>(out: &mut dyn Write) {
+    use generic_array::sequence::GenericSequence;
+    use std::sync::atomic::Ordering::SeqCst;
+    let mut a: GenericArray<ZCnt, N> = GenericArray::generate(|_| ZCnt);
+    ZCALLS.store(0, SeqCst);
+    a.zeroize();
+    let flat = ZCALLS.load(SeqCst);
+    let mut native: Vec<ZCnt> = (0..N::USIZE).map(|_| ZCnt).collect();
+    ZCALLS.store(0, SeqCst);
+    native.iter_mut().zeroize();
+    let reference = ZCALLS.load(SeqCst);
+    // rows of zero-sized elements: 3 per row
+    let mut nested: GenericArray<GenericArray<ZCnt, U3>, N> = GenericArray::generate(|_| GenericArray::generate(|_| ZCnt));
+    ZCALLS.store(0, SeqCst);
+    nested.zeroize();
+    let nest = ZCALLS.load(SeqCst);
+    writeln!(out, "{{\"ev\":\"zcalls\",\"ty\":\"zst_counted\",\"n\":{},\"calls\":{},\"slice_calls\":{},\"nested_calls\":{}}}", N::USIZE, flat, reference, nest).unwrap();
+}
+
 fn rle<T: Code>(s: &[T]) -> String {
     let mut out: Vec<(i64, usize)> = vec![];
     for x in s {
@@ -152,5 +179,7 @@ pub fn run(tier: &str, seed: u64, out: &mut dyn Write) {
     all_lens!(GenericArray<u8, U2>, "ga_u8_2", seed, out, tier);
     all_lens!(DZ, "dz", seed, out, tier);
     all_lens!(Sent, "sentinel", seed, out, tier);
+    macro_rules! zl { ($($n:ident),*) => { $( zst_calls::<$n>(out); )* }; }
+    zl!(U0, U1, U2, U3, U4, U5, U6, U7, U8, U9, U15, U16, U17, U31, U32, U33, U64, U97, U1024);
     writeln!(out, "{{\"ev\":\"case_end\"}}").unwrap();
 }
